@@ -380,7 +380,10 @@ def gen_case(rng, length=(10, 40)):
         for _ in range(n):
             i = r.randrange(len(reg)) if r.random() < 0.95 else len(reg) + 1
             t = reg[i][1] if i < len(reg) else 4
-            body += [i, 1] + value_for(r, t)
+            # mostly current values; now and then the target of the signal alone, or both (a query reads current
+            # values only: a write of the target alone must not wake it)
+            fl = r.choice([1, 1, 1, 1, 1, 1, 1, 2, 2, 3])
+            body += [i, fl] + (value_for(r, t) if fl & 1 else []) + (value_for(r, t) if fl & 2 else [])
         L.append([H.UPDATE, 0 if r.random() < 0.85 else who(), n] + body)
 
     # initial values for most signals
